@@ -16,7 +16,8 @@ pub struct MkSpec {
     pub ext_flags: u16,
     /// end-of-chain value to use (any value in the legal range of the width)
     pub eoc: u32,
-    /// FAT32: value of the reserved top nibble written into every entry (0..=0xF)
+    /// FAT32: value of the reserved top nibble written into every entry (0..=0xF); 0x10 = a different non-zero
+    /// value per entry ((7 * c + 3) % 15 + 1: all four bits occur, neighbours differ)
     pub nibble: u32,
     pub media: u8,
     pub status: u8,
@@ -197,7 +198,8 @@ impl Builder {
             b.set_fat_copy(copy, 1, eoc);
             if b.spec.width == 32 && nib != 0 {
                 for c in 2..=b.geo.max_cluster() {
-                    b.set_fat_copy_raw32(copy, c, nib << 28);
+                    let n = if nib == 0x10 { (7 * c + 3) % 15 + 1 } else { nib };
+                    b.set_fat_copy_raw32(copy, c, n << 28);
                 }
             }
             let total_entries = b.geo.fat_entries_total();
